@@ -374,14 +374,7 @@ fn main() {
                 state.current_stack()
             ));
 
-            res.push_str(&*format!(
-                "
-    last = Option::{};",
-                match state.get_latest_loc() {
-                    Some(v) => format!("Some({})", v),
-                    None => String::from("None"),
-                }
-            ));
+            let mut latest = state.get_latest_loc();
 
             let mut point = state.get_all_point();
             point.sort_by(|a, b| a.1.partial_cmp(&b.1).unwrap());
@@ -402,6 +395,9 @@ fn main() {
                         while idx < point.len() && point[idx].1 == i {
                             point[idx].1 = codes.len() - 1;
                             idx += 1;
+                        }
+                        if state.get_latest_loc() == Some(i) {
+                            latest = Some(codes.len() - 1);
                         }
                         codes.push(Vec::new());
                     }
@@ -426,7 +422,12 @@ fn main() {
             if opt {
                 res.push_str(&*format!(
                     "
+    last = Option::{};
     state = {};",
+                    match latest {
+                        Some(v) => format!("Some({})", v),
+                        None => String::from("None"),
+                    },
                     codes.len() - 1,
                 ));
             }
